@@ -37,6 +37,10 @@ class ASTWalker:
         elif isinstance(node, OverloadedFuncDef):
             node = node.impl
 
+        # An overloaded definition without an implementation (e.g. a property with a setter) has nothing to visit
+        if node is None:
+            return
+
         if node in visited_nodes:  # pragma: no cover
             raise AssertionError("Node visited twice")
         visited_nodes.add(node)
